@@ -335,6 +335,10 @@ func (x *Exec) applyContract(st *State, spec *FuncSpec, fn *ssa.Function, args [
 		st.alloc = na
 	}
 	st.flushAxioms()
+	for _, pw := range st.pendingWild {
+		st.recordWild(pw[0], pw[1])
+	}
+	st.pendingWild = nil
 	// results
 	var results *types.Tuple
 	if fn != nil {
@@ -686,7 +690,11 @@ func (x *Exec) arraySort(st *State, name string) (Sort, bool) {
 func (x *Exec) havocModifies(st *State, spec *FuncSpec, env *Env) {
 	ml := x.resolveModifies(st, spec, env)
 	if len(ml.wild) > 0 {
+		st.pendingWild = append(st.pendingWild, [2][]string{append([]string(nil), ml.wild...), append([]string(nil), ml.keep...)})
 		for _, name := range sortedKeys(st.heap) {
+			if strings.HasPrefix(name, wildKeyPrefix) {
+				continue
+			}
 			if ml.isCoarse(name) {
 				ml.coarse[name] = true
 			}
@@ -702,7 +710,9 @@ func (x *Exec) havocModifies(st *State, spec *FuncSpec, env *Env) {
 		if !ok {
 			s = x.eng.guessArraySort(name)
 			if s == "" {
-				continue // never touched by anybody in this unit
+				// not looked at by anybody in this unit so far: remember the havoc for a later first look
+				st.pendingWild = append(st.pendingWild, [2][]string{{name}, nil})
+				continue
 			}
 		}
 		before := st.heapGet(name, s)
